@@ -194,7 +194,13 @@ func check(c Case) error {
 		}
 		m["VerifI"] = rebase.Enzyme{Name: "VerifI"}
 	}
-	return compare("Parse, a second time, after the caller had written into the earlier results", c, rebase.Parse(append([]byte{}, text...)))
+	again := rebase.Parse(append([]byte{}, text...))
+	if err := compare("Parse, a second time, after the caller had written into the earlier results", c, again); err != nil {
+		return err
+	}
+	// kept by the caller while other listings are parsed (vk.Hold)
+	vk.Hold("the map rebase.Parse returned", func() error { return compare("the listing parsed earlier", c, again) })
+	return nil
 }
 
 func nonTrivial(c Case) bool {
